@@ -199,6 +199,31 @@ Theorem C05_flags_exact :
 Proof. intros T TT cycles fuel p i k sc R O Lf. exact (do_run_flags cycles fuel p R O i k sc Lf). Qed.
 Print Assumptions C05_flags_exact.
 
+(* 4c. The same for DoDoers that are not `always`, in the final state of every run
+   (any program without a doer numbered 0, oof = false).  With l = the DoDoer's
+   lifecycle events, newest first:
+     l = []                          (never entered)                flag <> True
+     l = Exit :: Clean :: ...        (returned by itself, which it  flag = True
+                                      does exactly when its deque is
+                                      empty after a pass: C05_dodoer_flag)
+     any other l (alive, force-closed, aborted)                     flag = False
+   So the flag is True exactly when the DoDoer returned because its deque emptied,
+   never while it still holds a child.  (An `always` DoDoer keeps running with
+   done = True and is excluded.) *)
+Theorem C05_dodoer_flags_exact :
+  forall (T : Type) (TT : Time T) (cycles fuel : nat) (p : prog T) (i : id) t0 kids,
+    get (p_defs p) 0%N = None -> oof (do_run cycles fuel p) = false ->
+    get (p_defs p) i = Some (FNest t0 false kids) ->
+    let s := do_run cycles fuel p in
+    match evs i s with
+    | [] => get_done s i <> Some true
+    | Exit :: Clean :: _ => get_done s i = Some true
+    | Clean :: _ => True
+    | _ => get_done s i = Some false
+    end.
+Proof. intros T TT cycles fuel p i t0 kids R O N. exact (do_run_nest_flags cycles fuel p R O i t0 kids N). Qed.
+Print Assumptions C05_dodoer_flags_exact.
+
 (* ... preserved by every interpreter function from any state (XInv = out of
    budget, or the rule holds for every leaf; proved for all eleven functions at
    once, Proofs/SchedCycleFlag.v) *)
@@ -312,7 +337,9 @@ Example C05_example_limit :
   get_done (do_run 50 100 p) 1%N = Some true /\ get_done (do_run 50 100 p) 4%N = None /\
   get_done (do_run 50 100 p) 5%N = Some false /\
   evs 1%N (do_run 50 100 p) = [Exit; Clean; Recur; Recur; Enter] /\
-  evs 5%N (do_run 50 100 p) = [Exit; Cease; Recur; Recur; Recur; Enter].
+  evs 5%N (do_run 50 100 p) = [Exit; Cease; Recur; Recur; Recur; Enter] /\
+  get (p_defs p) 2%N = Some (FNest 0%Z false [3%N; 4%N]) /\
+  evs 2%N (do_run 50 100 p) = [Exit; Cease; Recur; Recur; Recur; Enter] /\ get_done (do_run 50 100 p) 2%N = Some false.
 Proof.
   cbv zeta. split; [reflexivity|]. split; [reflexivity|]. split; [vm_compute; reflexivity|].
   split. { intros j Hj. destruct j as [|[|[|j]]]; try lia; vm_compute; reflexivity. }
@@ -337,7 +364,9 @@ Example C05_example_nolimit :
   (forall j, (j <= 5)%nat -> cycle_ok tk 100 (after tk 100 s0 j) = true) /\
   (forall j, (j < 5)%nat -> deeds (get_sched (after tk 100 s0 (S j)) 0%N) <> []) /\
   deeds (get_sched (after tk 100 s0 6) 0%N) = [] /\
-  oof (do_run 50 100 p) = false /\ tyme (do_run 50 100 p) = 22%Z /\ get_done (do_run 50 100 p) 0%N = Some true.
+  oof (do_run 50 100 p) = false /\ tyme (do_run 50 100 p) = 22%Z /\ get_done (do_run 50 100 p) 0%N = Some true /\
+  (* DoDoer 2 returned by itself when its deque emptied *)
+  firstn 2 (evs 2%N (do_run 50 100 p)) = [Exit; Clean] /\ get_done (do_run 50 100 p) 2%N = Some true.
 Proof.
   cbv zeta. split; [reflexivity|]. split; [vm_compute; reflexivity|].
   split. { intros j Hj. destruct j as [|[|[|[|[|[|j]]]]]]; try lia; vm_compute; reflexivity. }
